@@ -16,6 +16,9 @@ import time
 
 VERIF = os.path.dirname(os.path.dirname(os.path.abspath(__file__)))
 REPO = os.environ.get("PALETTE_REPO", "/repo")
+# self-test lanes (tools/par_matrix.sh): several scratch worktrees analysed at once, each with its own cargo target dirs, witness crates,
+# locks and evidence directory; unset for the registered commands
+LANE = os.environ.get("PALETTE_LANE", "")
 CACHE = os.path.join(VERIF, ".cache")
 DRIVER_TARGET = os.path.join(CACHE, "pfacts-target")
 DRIVER = os.path.join(DRIVER_TARGET, "release", "pfacts")
@@ -92,7 +95,7 @@ class Lock:
 def build_facts(tag="all", repo=None, crates="palette", package="palette", quiet=True):
     """Return (path, info) of the fact file for the current working tree of `repo`."""
     repo = repo or REPO
-    with Lock("facts-" + tag):
+    with Lock("facts-" + tag + LANE):
         build_driver()
         sh, nfiles = source_hash(repo)
         key = "%s-%s" % (sh, _driver_hash())
@@ -102,7 +105,7 @@ def build_facts(tag="all", repo=None, crates="palette", package="palette", quiet
         if os.path.exists(out):
             return out, info
         os.makedirs(outdir, exist_ok=True)
-        tgt = os.path.join(CACHE, "tgt", tag if repo == REPO else tag + "-alt")
+        tgt = os.path.join(CACHE, "tgt", (tag if repo == "/repo" else tag + "-alt") + LANE)
         # never trust cargo's freshness cache for the analysed crate
         fp = os.path.join(tgt, "debug", ".fingerprint")
         if os.path.isdir(fp):
@@ -133,7 +136,7 @@ def build_facts(tag="all", repo=None, crates="palette", package="palette", quiet
         return out, info
 
 
-def _prune(d, keep, maxkeep=4):
+def _prune(d, keep, maxkeep=16):
     ents = [(os.path.getmtime(os.path.join(d, e)), e) for e in os.listdir(d) if e != keep]
     ents.sort(reverse=True)
     for _, e in ents[maxkeep - 1:]:
